@@ -126,6 +126,22 @@ static void *work(void *arg)
   return NULL;
 }
 
+/* thrstress <threads> <iterations>: every thread writes its own configuration of floats that take the writer's rare
+ * paths (exact re-rendering near DBL_MAX, exponents, huge fixed notation, denormals) over and over and compares each
+ * output with the text the same configuration gave before any other thread existed */
+struct sjob { int id, iters, bad; char *expect; size_t elen; config_t cfg; };
+static void swrite(config_t *c, char **out, size_t *len) { FILE *t = open_memstream(out, len); config_write(c, t); fclose(t); }
+static void *stress(void *arg)
+{
+  struct sjob *j = arg; int i;
+  for (i = 0; i < j->iters && !j->bad; i++) {
+    char *o = NULL; size_t l = 0; swrite(&j->cfg, &o, &l);
+    if (l != j->elen || memcmp(o, j->expect, l)) j->bad = 1;
+    free(o);
+  }
+  return NULL;
+}
+
 int main(int argc, char **argv)
 {
   char *line = NULL; size_t cap = 0; ssize_t n;
@@ -133,6 +149,24 @@ int main(int argc, char **argv)
   config_set_fatal_error_func(thr_fatal);          /* once, before any thread exists */
   while ((n = getline(&line, &cap, stdin)) > 0) {
     int nt, rounds, i, bad = -1, parfirst = 0; unsigned seed; struct job serial[MAXT], par[MAXT]; pthread_t th[MAXT]; size_t total = 0;
+    { int snt, sit;
+      if (sscanf(line, "thrstress %d %d", &snt, &sit) == 2 && snt >= 1 && snt <= MAXT) {
+        struct sjob sj[MAXT]; pthread_t sth[MAXT]; int sbad = -1;
+        for (i = 0; i < snt; i++) {
+          char text[512];
+          snprintf(text, sizeof text, "a = %s1.797693134862%02de308; b = 1.7976931348623157e308; c = [ 1.5e300, -2.5e-300, 4.9e-324 ]; d = %d.125e15; e = 1e%d;\n",
+                   i & 1 ? "-" : "", 10 + i, 1000 + i, 20 + i);
+          sj[i].id = i; sj[i].iters = sit; sj[i].bad = 0; config_init(&sj[i].cfg);
+          config_set_option(&sj[i].cfg, CONFIG_OPTION_ALLOW_SCIENTIFIC_NOTATION, i % 3 != 2); config_set_float_precision(&sj[i].cfg, (unsigned short)(1 + i % 5));
+          if (!config_read_string(&sj[i].cfg, text)) sbad = i;
+          swrite(&sj[i].cfg, &sj[i].expect, &sj[i].elen);
+        }
+        for (i = 0; i < snt; i++) pthread_create(&sth[i], NULL, stress, &sj[i]);
+        for (i = 0; i < snt; i++) pthread_join(sth[i], NULL);
+        for (i = 0; i < snt; i++) { if (sj[i].bad && sbad < 0) sbad = i; free(sj[i].expect); config_destroy(&sj[i].cfg); }
+        if (sbad >= 0) printf("DIFF %d\n", sbad); else printf("ok %d\n", snt * sit);
+        fflush(stdout); continue;
+      } }
     /* a 4th field "1" = run the threads BEFORE the serial reference runs (the very first use of the library is concurrent) */
     if (sscanf(line, "thrcase %d %d %u %d", &nt, &rounds, &seed, &parfirst) < 3 || nt < 1 || nt > MAXT) { printf("bad-op\n"); fflush(stdout); continue; }
     if (!parfirst) for (i = 0; i < nt; i++) { serial[i] = (struct job){ i, rounds, seed, NULL, 0 }; work(&serial[i]); }
